@@ -78,7 +78,7 @@ func (ts *TagSet) Merge(other *TagSet) *TagSet {
 	if other == nil || ts.Schema != other.Schema {
 		return ts
 	}
-	nl := ts.List // shallow copy
+	nl := append([]*cbc.Definition(nil), ts.List...) // copy: never append into the shared list
 	for _, t := range other.List {
 		found := false
 		for _, nlt := range nl {
